@@ -86,6 +86,7 @@ class Zoo:
     frontend: str = 'functor'    # functor | basic | basic2 | puml
     cxx: str = '17'
     no_exceptions: bool = False
+    user_kleene: bool = False    # Kleene rows use a user-declared Kleene type (is_kleene_event specialisation) instead of boost::any / std::any
 
     # ---- derived tables ----
     def machines(self):
